@@ -77,11 +77,11 @@ CHECKS = {
          "Every valid confirmation history for up to 6 (thorough: 7) tags, five start tags incl. the u64 boundary, every early-drop pattern up to 4 tags, plus every arbitrary (duplicate/stale) sequence to depth 5 (6) for the safety half, each executed on the real public API and compared call by call with a first-cover reference model. Exhaustive inside those bounds; nothing is sampled.",
          "Bounds only: histories longer than 7 tags and arbitrary sequences deeper than 6 are not covered; tag u64::MAX itself is excluded.",
          "DESIGN.md §6 C14", "seqx"),
- "C15": ("exploration",
-         "complete cartesian enumeration of (client, server) tuning values through the real make_tune_ok against an independent reference",
-         "Joint boundary product of all six values (592,900 combinations; thorough adds the complete u16 x u16 products for channel_max and heartbeat, 8.6e9 evaluations) compared with a five-line min-with-0-as-unlimited reference, including the FrameMaxTooSmall floor.",
-         "Covers the negotiation half only; 'then obeyed' (channel limit, frame splitting, heartbeat timing by the announced values) is not decided by this part.",
-         "DESIGN.md §6 C15", "seqx"),
+ "C15": ("model_checking",
+         "complete cartesian enumeration of tuning values through the real make_tune_ok against an independent reference, plus execution of negotiated sessions on the real threads under virtual time checking that the connection behaves by the negotiated values",
+         "seqx: joint boundary product of all six values (592,900; thorough adds the complete u16 x u16 products for channel_max and heartbeat, 8.6e9 evaluations) against a min-with-0-as-unlimited reference incl. the FrameMaxTooSmall floor. simx tuned: 9 (thorough 13) (client options, server Tune) pairs through a live connection: TuneOk on the wire equals the negotiated triple (or FrameMaxTooSmall and no TuneOk), open_channel(Some(channel_max)) works and Some(channel_max+1) is refused, a body of three payload limits is framed within frame_max, and over three negotiated heartbeat intervals of idleness the client writes at least every interval (nothing when the interval is 0).",
+         "The 'then obeyed' half is checked on 9-13 value pairs, not on the whole product; heartbeat timing uses the virtual clock and timer stand-in.",
+         "DESIGN.md §6 C15", "seqx+simx"),
  "C16": ("model_checking",
          "stateless deviation-bounded exhaustive exploration of the opening handshake on the real I/O loop against every scripted server behaviour per stage, plus a complete cartesian sweep of StartOk construction",
          "simx: at each of the three points where the client waits the broker either behaves or sends one of 12 other things (Secure, Close, wrong-stage frames, heartbeat, channel-1 method, header, body, EOF, malformed bytes, silence with a configured timeout), plus mechanism/locale lists, too small frame_max, auth/information options and transport faults injected at any point; every delivery cut/schedule with at most 2 (thorough 3) deviations. Oracle: the exact error or success, methods written strictly in reaction (StartOk content, TuneOk, Open vhost, CloseOk on a server close), server_properties, thread and transport released. seqx: 228k (mechanism list, locale list, auth, locale, information) combinations through make_start_ok with token-equality expectations.",
